@@ -100,6 +100,8 @@ TARGET_LAYOUTS = {
     "+chr2": [("chr2", 2, 4)],
     "+chrUn_x": [("chrUn_x", 1, 2)],
     "+chr2+chrUn_x": [("chr2", 2, 4), ("chrUn_x", 1, 2)],
+    # genomic order (chr2 before chr10) differs from the order of the names as strings; the two baits differ in length
+    "+chr2+chr10": [("chr2", 2, 4), ("chr10", 1, 9)],
 }
 FINE_GEOMETRIES = ["gap", "left-edge", "right-edge", "access-overlap"]
 
